@@ -173,6 +173,14 @@ class Extractor:
                                          before=sf.text[t.start:toks[close].end], after=""))
                 i = close + 1
                 continue
+            if (t.kind == "ident" and t.text == "pub" and i + 2 <= t_hi and toks[i + 1].text == "("
+                    and toks[i + 2].text in ("crate", "super", "in", "self")):
+                close = brk[i + 1]
+                region.add(toks[i + 1].start, toks[close].end, "", "drop", "D-vis")
+                self.log.append(dict(rule="D-vis", file=sf.rel, line=sf.line_of(t.start),
+                                     before=sf.text[t.start:toks[close].end], after="pub"))
+                i = close + 1
+                continue
             if (t.kind == "ident" and t.text in TRACE_MACROS and i + 2 <= t_hi and toks[i + 1].text == "!"
                     and toks[i + 2].text == "(" and (i == 0 or toks[i - 1].text in (";", "{", "}", "=>"))):
                 close = brk[i + 2]
@@ -324,6 +332,10 @@ class Extractor:
             elif cmd == "impl":
                 close_fn()
                 nth = 1
+                noassoc = False
+                if arg.endswith(" noassoc"):
+                    noassoc = True
+                    arg = arg[:-len(" noassoc")].strip()
                 m = re.search(r"#(\d+)\s*$", arg)
                 if m:
                     nth = int(m.group(1))
@@ -331,7 +343,7 @@ class Extractor:
                 hdr = norm(tokenize(arg))
                 it = self.find_item("impl", hdr, nth)
                 members = scan_items(self.sf.toks, self.sf.brk, it.body_open + 1, it.last)
-                self.impl = dict(item=it, members=members, hdr=hdr)
+                self.impl = dict(item=it, members=members, hdr=hdr, noassoc=noassoc)
                 toks = self.sf.toks
                 # header text verbatim (from keyword, attrs dropped) incl '{'
                 reg = Region(self.sf, toks[it.kw].start, toks[it.body_open].end, f"{self.sf.rel}::{hdr}")
@@ -341,6 +353,21 @@ class Extractor:
                 # header-specific rewrites may follow as //@rw before first //@fn: handled lazily
                 self.impl_open_emitted = False
                 self.impl_hdr_rws = []
+            elif cmd == "trait":
+                close_fn()
+                m = re.match(r"(\w+)\s+as\s+(.*)$", arg)
+                if not m:
+                    raise ExtractError("extract-error", f"{where}: bad //@trait")
+                it = self.find_item("trait", m.group(1), 1)
+                members = scan_items(self.sf.toks, self.sf.brk, it.body_open + 1, it.last)
+                self.impl = dict(item=it, members=members, hdr="trait " + m.group(1), noassoc=True)
+                toks = self.sf.toks
+                reg = Region(self.sf, toks[it.kw].start, toks[it.body_open].end, f"{self.sf.rel}::trait {m.group(1)}")
+                reg.add(toks[it.kw].start, toks[it.body_open].start, m.group(2) + " ", "rw", "R3")
+                self.log.append(dict(rule="R3", file=self.sf.rel, line=self.sf.line_of(toks[it.kw].start),
+                                     before=self.sf.text[toks[it.kw].start:toks[it.body_open].start], after=m.group(2)))
+                self.impl_rws_pending = reg
+                self.impl_open_emitted = False
             elif cmd == "endimpl":
                 close_fn()
                 self.flush_impl_header()
@@ -404,7 +431,7 @@ class Extractor:
             # assoc types/consts
             sf = self.sf
             for mem in self.impl["members"]:
-                if mem.kind in ("type", "const"):
+                if mem.kind in ("type", "const") and not self.impl.get("noassoc"):
                     reg = Region(sf, sf.toks[mem.kw].start, sf.toks[mem.last].end, "assoc")
                     for (rule, frm, to) in self.rwall:
                         self.apply_rw(reg, mem.kw, mem.last, rule, None, frm, to, "rwall")
